@@ -85,7 +85,7 @@ def client_negotiation_stims(seed, tier):
                                 'server': {'send': ss, 'accept': sa, 'max_dec': -1, 'max_enc': -1},
                                 'client': {'send': cs, 'accept': list(ca), 'max_dec': -1, 'max_enc': -1, 'clone': rnd.random() < 0.4},
                                 'req': {'meta': meta, 'msgs': [[5] * 50] if shape in ('unary', 'sstream') else [[5] * 50, [], [1]]},
-                                'script': {'init_meta': [], 'msgs': [[9] * 60] if shape in ('unary', 'cstream') else [[9] * 60, [8]],
+                                'script': {'init_meta': [], 'msgs': [[9] * 60] if shape in ('unary', 'cstream') else [[9] * 60, [], [8]],
                                            'end': {'ok': True}, 'fail_before': False, 'no_compress': rnd.random() < 0.2}})
     return out
 
